@@ -76,6 +76,21 @@ def run(ctx, chk, tier):
         else:
             chk.violation("R20.1", ND + ".roc", inst, "fnr=%s fpr=%s" % (show(r.attrs.get("fnr"), 140), show(r.attrs.get("fpr"), 140)),
                           "rates of the model at the returned thresholds; requested axis reproduced", ctx.where(ND + ".roc"))
+    # ---------------- R20.7 the returned curve owns its arrays (may-alias analysis; the value terms cannot tell x from sf(isf(x)))
+    from ..alias import construction_aliases
+    fi = ctx.db.function(ND + ".roc")
+    sites = construction_aliases(fi.node, {"ROCCurve"})
+    if not sites:
+        chk.unknown("R20.7", "no ROCCurve construction found in NormalDataset.roc")
+    for call, slots in sites:
+        for k, al in sorted(slots.items()):
+            inst = "roc:ROCCurve.%s" % k
+            if al:
+                chk.violation("R20.7", ND + ".roc", inst + ":aliases-" + "-".join(sorted(al)), "ROCCurve(%s=...) may share storage with the caller's `%s` array (no-copy conversion / view)" % (k, ", ".join(sorted(al))),
+                              "arrays computed from the thresholds: a later in-place change of the caller's grid must not change the rates stored next to the thresholds",
+                              "%s:%d" % (fi.module.relpath, call.lineno))
+            else:
+                chk.hold("R20.7", inst, "freshly computed array (aliases no argument)", nontrivial=False)
     # ---------------- R20.2 from_metrics
     A, B, S1, S2 = Sym("fnr0", ("float", "notnone", "positive")), Sym("fpr0", ("float", "notnone", "positive")), Sym("fnr_support", ("int", "notnone")), Sym("fpr_support", ("int", "notnone"))
     fm = ev.getattr(ev.global_value(ctx.db.module("score_analysis.experimental.datasets"), "NormalDataset"), "from_metrics")
